@@ -77,6 +77,19 @@ def delegator_runtime(chk, F, rule, cfg):
             chk.ob(rule, 'Pin receivers: the helper lives in the per-instance cell', ok, config=cfg, fn=fn, site='pin', what='Pin to_delegator calls %s' % [e.data[1].rsplit('::', 1)[-1] for e in p.calls()])
 
 
+def _shared_on_path(F, p):
+    """the path has established that the handle is NOT the only one: try_unwrap said Err / into_inner said None on it.
+    (strong_count / get_mut comparisons are accepted path-insensitively: their outcome encodes the same fact but through an
+    integer or Option the rule does not interpret.)"""
+    for d in p.decisions:
+        v = d.value
+        if v[0] == 'discr' and is_call(strip(v[1]), r'::(try_unwrap|into_inner)$'):
+            var = symex.decision_variant(F, d)
+            if var in ('Err', 'None'):
+                return True
+    return p.called(r'::(strong_count|get_mut)$')
+
+
 def owning_handles(chk, F, rule, cfg):
     """R15.5: to_delegator on an owning handle (Rc/Arc) must not drop the handle while returning a clone derived from it,
     unless it first made sure the handle is not unique (try_unwrap) — otherwise the original dies with a clone alive."""
@@ -94,7 +107,7 @@ def owning_handles(chk, F, rule, cfg):
             clones = [e for e in p.calls(r'<Unimock as core::clone::Clone>::clone$')]
             drops_handle = any(e.kind == 'drop' and strip(e.data[0]) == ('param', 0, 1) for e in p.effects) or \
                 any(e.kind == 'drop' and 'Unimock>' in (e.data[1] or '') and mentions(e.data[0], lambda x: x == ('param', 0, 1)) for e in p.effects)
-            unique_checked = p.called(r'::(try_unwrap|into_inner|strong_count|get_mut)$')
+            unique_checked = _shared_on_path(F, p)
             derived = bool(clones) and mentions(r, lambda x: x[0] == 'call' and any(x[3] == c.data[3] for c in clones))
             bad = derived and drops_handle and not unique_checked
             chk.ob(rule, '%s<Unimock>::to_delegator does not let a sole owning handle die while its clone lives on in the helper' % kind, not bad, config=cfg, fn=fn, site='%s:to_delegator' % kind,
@@ -113,7 +126,7 @@ def owning_handles(chk, F, rule, cfg):
             r = p.outcome[1] if p.outcome[0] == 'return' else ('unk', '')
             clones = [e for e in p.calls(r'<Unimock as core::clone::Clone>::clone$')]
             derived = bool(clones) and mentions(r, lambda x: x[0] == 'call' and any(x[3] == c.data[3] for c in clones))
-            unique_checked = p.called(r'::(try_unwrap|into_inner|strong_count|get_mut)$')
+            unique_checked = _shared_on_path(F, p)
             bad = bool(moves_original.get(kind)) and derived and not unique_checked
             chk.ob(rule, '%s<Unimock>::from_delegator does not drop a sole helper (which may hold the original) while returning its clone' % kind, not bad, config=cfg, fn=fn, site='%s:from_delegator' % kind,
                    what='drops-helper-with-clone-alive', found={'clones_helper_mock': derived, 'uniqueness_checked': unique_checked, 'helper_may_hold_original': bool(moves_original.get(kind))})
